@@ -3,7 +3,7 @@ Driver for C16. Trace lines of one case (harness/cmd/verifharness/c16.go):
 
   part <seek|seq> <css> <hlen> <pt>     pt: hex | "-" | gen:<n> (pt[i] = (7i+3) mod 251)
   fixes eof=<0|1>
-  mut none | xor <off> <mask> | trunc <n> | append <hex> | swap <i> <j> | cross-whole | cross-body |
+  mut none | xor <off> <mask> | trunc <n> | append <hex> | swap <i> <j> <first stream byte> | cross-whole | cross-body |
       hdr-segsize <v> <hlen2> | hdr-dek | hdr-version <v> <hlen2> | hdr-keytype <v> <hlen2>
   full <ok|err> <tok>                   "=" (the plaintext), "<k" (its first k bytes), else hex
   off <o> <ok|err> <tok>                Seek(o) + ReadAll, tok relative to pt[o:]
@@ -106,15 +106,17 @@ def judgeCase (_k : Nat) (lines : List String) : Verdict := Id.run do
       else if t < base then { css, ct := [], keyOf := keyOfA, openFails := true }
       else { css, ct := streamA.take (t - base), keyOf := keyOfA }
     | ["mut", "append", h] => { css, ct := streamA ++ (unhex h).getD [], keyOf := keyOfA }
-    | ["mut", "swap", i, j] =>
+    | ["mut", "swap", i, j, fb] =>
       let a := i.toNat!
       let b := j.toNat!
       if (a + 1) * css ≤ streamA.length && (b + 1) * css ≤ streamA.length && a != b then
         let slot (k : Nat) := (streamA.drop (k * css)).take css
         let lo := min a b
         let hi := max a b
-        { css, keyOf := keyOfA,
-          ct := streamA.take (lo * css) ++ slot hi ++ (streamA.drop ((lo + 1) * css)).take ((hi - lo - 1) * css) ++ slot lo ++ streamA.drop ((hi + 1) * css) }
+        let sw := streamA.take (lo * css) ++ slot hi ++ (streamA.drop ((lo + 1) * css)).take ((hi - lo - 1) * css) ++ slot lo ++ streamA.drop ((hi + 1) * css)
+        -- the reader's header-length check looks at the first byte: after a swap with slot 0 that is a
+        -- ciphertext byte of the real cipher, taken from the trace
+        { css, keyOf := keyOfA, ct := UInt8.ofNat fb.toNat! :: sw.drop 1 }
       else { css, ct := streamA, keyOf := keyOfA }
     | ["mut", "cross-whole"] => { css, ct := [], keyOf := keyOfA, openFails := true }   -- the DEK does not unwrap under this part id
     | ["mut", "cross-body"] =>
@@ -132,7 +134,9 @@ def judgeCase (_k : Nat) (lines : List String) : Verdict := Id.run do
     else match path, off with
       | "seek", some o => .res (seekRead toy setup.keyOf fix setup.css setup.ct o)
       | "seek", none => .res (seekRead toy setup.keyOf fix setup.css setup.ct 0)
-      | _, none => .res (seqRead toy setup.keyOf fixHdr setup.css setup.ct)
+      | _, none =>
+        -- tink-go refuses a ciphertext segment size that leaves no room for header + tag
+        if setup.css ≤ 56 then .res (.err []) else .res (seqRead toy setup.keyOf fixHdr setup.css setup.ct)
       | _, some _ => .res (.err [])
   let mutated := mutT != ["mut", "none"]
   let mkind := mutT.getD 1 "none"
@@ -169,6 +173,7 @@ def judgeCase (_k : Nat) (lines : List String) : Verdict := Id.run do
                 (if setup.emptyStored || (path == "seq" && setup.ct.isEmpty) then ".truncated-inside-the-envelope"
                  else if path == "seek" then ".truncated.seekable-reader" else ".truncated.sequential-reader")
               else if mkind == "hdr-segsize" && path == "seek" && got.isEmpty then ".segment-size-header-altered.seekable-reader"
+              else if mkind == "append" && path == "seek" && got.isEmpty then ".bytes-appended.seekable-reader"
               else ""
             vio := vio ++ [((if mutated then "C16.tampered-part-read-without-error" else "C16.read-returned-wrong-bytes") ++ ctx,
               s!"{tag}:returned-{got.length}-bytes,expected-{want.length}")]
